@@ -6,7 +6,7 @@ from concurrent.futures import ThreadPoolExecutor
 import vtlib
 
 META = dict(
-   text='TLC explores a step machine transcribed from net/http (append_bytes terminator search across recv boundaries, start-line and header parse, sorted case-insensitive header index, body_size framing decision, BodyReadStream, ChunkedBodyReadStream line buffer / cursor / chunk_remain, BodyWriteStream clipping, ChunkedBodyWriteStream) for every message of a small scope x every set of <=2 (thorough: <=3) cut positions + one byte per recv x read sizes {1,2,5,inf}, and checks against a reference grammar written in TLA+ (ParseHead, Framing, Payload): FragmentationIndependent, BodyExactThenEOF, WriterReaderRoundTrip; a second scope of every short string over small alphabets (header blocks, start lines, chunked bodies) and every truncation checks MalformedTerminates and InBounds. The real Request/Response::receive_header, body read streams and write streams are then run under a fragmenting ISocketStream on the same scope (chunk sizes {0,1,2,3,10,16,17}, <=2 chunks, all cut sets, read sizes {1,2,5,inf}), on single-byte mutations / truncations / short strings as malformed input, on seeded random messages and on large messages near the 64 KB buffer limits; every distinct outcome (parsed fields as buffer offsets, header index and look-ups, body bytes, read return codes, socket-call count) is judged by TLC against the reference operators; each case is repeated with different stale buffer content behind the received bytes and with a buffer without NUL bytes that ends at an inaccessible page.',
+   text='TLC explores a step machine transcribed from net/http (append_bytes terminator search across recv boundaries, start-line and header parse, header index sorted as libstdc++ sorts it and searched case-insensitively, body_size framing decision, BodyReadStream, ChunkedBodyReadStream line buffer / cursor / chunk_remain, BodyWriteStream clipping, ChunkedBodyWriteStream) for every message of a small scope (whole requests / responses with Content-Length, chunked, close-delimited, HTTP/1.0, HEAD; chunked bodies with chunk sizes {1,2,3,10,16,17}, at most 2 chunks; messages followed by the next message; bodies written by the transcribed writers) x every single cut position (thorough: every set of <=2 cuts, <=3 for the short messages) + one byte per recv x read sizes {1,2,5,inf}, and checks against a reference grammar written in TLA+ (ParseHead, Framing, Payload): FragmentationIndependent, BodyExactThenEOF, WriterReaderRoundTrip; a second scope of every short string over small alphabets (header blocks, start lines, chunked bodies) and every truncation, with two values of the stale byte behind the data, checks MalformedTerminates and InBounds. The real Request/Response::receive_header, body read streams and write streams are then run under a fragmenting ISocketStream: the same messages x every set of <=2 (thorough <=3) cuts x read sizes {1,2,5,inf}, chunk sizes {0,1,2,3,10,16,17} with <=2 chunks, writers with pieces {0,1,2,3,10,16,17}, short strings / truncations / single-byte mutations as malformed input, seeded random messages with random fragmentations and read-size patterns, and large messages near the limits of the 64 KB buffer; every distinct outcome (parsed fields as buffer offsets, header index and look-ups, body bytes, read return codes, socket-call count) is judged by TLC against the reference operators; cases are repeated with different stale buffer content behind the received bytes and with a buffer without NUL bytes that ends at an inaccessible page.',
    note='TLC result holds for the stated scopes; longer messages only through the seeded random and large cases. The valid grammar is narrow on purpose (exact "chunked"/"close"/"keep-alive" tokens, no Trailer / Content-Range, no obs-fold); anything else is only required to end with error/EOF inside the buffers. Accesses outside the received bytes are seen only when they change the outcome or run off the end of the buffer (no sanitizer build of the library).',
    technique='TLA+ transcription + TLC exhaustive small-scope equivalence with reference grammar; trace validation of real outcomes (TLC) per distinct outcome; known deviations as KF switches of the transcription used to classify rejections',
    design='3/C13')
